@@ -391,3 +391,15 @@ PROPS["C02"]["claim"] += (" WHAT AN INVOCATION MAY CHANGE (invocation_changes_on
     "environment property that check_build_dirty, a command's completion + record_finished, and -t restat adoption preserve).")
 PROPS["C18"]["claim"] += (" A name only the build log knows (removed step's output, depfile-only header) is rejected like any unknown name "
     "(log_only_name_rejected; finding F13 repaired, the model carries State::manifest_files); monitor unknownRejected on histories that name such files.")
+
+PROPS["C03"]["claim"] += (" THE ROUND TRIP (build_after_successful_build_does_nothing, Lemmas/SchedDone + WorkSettled + WorldSettled), proved for "
+    "projects WITHOUT discovered dependencies (no depfile/deps, no rewritten inputs, no dependency lists in the log) on acyclic graphs: if an "
+    "invocation succeeds without reloading, marked every step it wanted, the files those steps name exist afterwards and the manifest loads to "
+    "the same graph, the next invocation with the same arguments changes nothing, starts nothing and reports 0 tasks - for all scheduling "
+    "behaviours of both invocations. Carried by a joint scheduler/environment invariant (JS) through Work::run: generic lemma runLoop_done "
+    "(an invariant that depends on the scheduler only through the Done set and is kept by check/adopt/success under 'the step is not Done, all "
+    "its transitive ordering ancestors are' holds whenever run returns success). With discovered dependencies the second half is still only "
+    "checked (monitor settledAfterSuccess).")
+PROPS["C02"]["claim"] += (" DONE STEPS ARE SETTLED (done_steps_are_settled; same restriction): at the end of a successful run::build the stat cache is "
+    "truthful except about outputs of steps not Done, every record appended belongs to a Done step, dirtying inputs of Done steps come from Done "
+    "steps, and the signature the next start-up attaches to a Done step whose files exist is the manifest of the files as they are now.")
